@@ -224,7 +224,10 @@ def w_tlc(case):
 def id_surface(img, surf, tracks, spt, total=None):
     ident = b'image %d surface %d' % (img, surf)
     e = disc.Entry(b'ID', b'$', False, 0, 0, len(ident), 2, body=ident)
-    return disc.acorn_surface(disc.Volume([e], b'I%dS%d' % (img, surf), 0, 0, total or tracks * spt), tracks * spt, b'x'), ident
+    # a second file in the LAST sector of the surface (beyond track 0: a wrong stride / side offset / slot offset shows here only)
+    tot = total or tracks * spt
+    far = disc.Entry(b'FAR', b'$', False, 0, 0, len(ident) + 4, tot - 1, body=ident + b' far')
+    return disc.acorn_surface(disc.Volume([far, e], b'I%dS%d' % (img, surf), 0, 0, tot), tracks * spt, b'x'), ident
 
 
 def make_image_file(d, img, kind):
@@ -273,6 +276,8 @@ def make_image_file(d, img, kind):
                 x, ident = id_surface(img, s, 80, 10)
                 f.seek(8192 + s * 204800)
                 f.write(x[:3 * 256])
+                f.seek(8192 + s * 204800 + 799 * 256)
+                f.write(x[799 * 256:800 * 256])
                 ids[s] = ident
             f.truncate(8192 + 511 * 204800)
         return 'img%d.mmb' % img, 511, ids
@@ -335,7 +340,8 @@ def w_address(case):
                 bump(res, 'show-titles-ok')
         probe = range(0, maxd + 3) if maxd < 40 else sorted(set(list(range(0, 10)) + list(range(maxd - 6, maxd + 3)) + list(range(500, 520))))
         for k in probe:
-            for cmd in (['type', '--binary', ':%d.$.ID' % k], ['--drive', str(k), 'type', '--binary', 'ID'], ['cat', str(k)]):
+            for cmd in (['type', '--binary', ':%d.$.ID' % k], ['--drive', str(k), 'type', '--binary', 'ID'], ['cat', str(k)],
+                        ['type', '--binary', ':%d.$.FAR' % k]):
                 r = dfsrun.dfs('plain', argv + cmd if cmd[0] != '--drive' else argv + cmd, d, timeout=120)
                 res['n'] += 1
                 if k in model and model[k] in blank:
@@ -350,7 +356,7 @@ def w_address(case):
                     if cmd[0] == 'cat':
                         okk = r.status() == 'exit0' and (b'I%dS%d' % model[k]) in r.out.split(b'\n')[0]
                     else:
-                        okk = r.status() == 'exit0' and r.out == idents[model[k]]
+                        okk = r.status() == 'exit0' and r.out == idents[model[k]] + (b' far' if cmd[-1].endswith('FAR') else b'')
                     if not okk:
                         bump(res, 'wrong-surface')
                         res['viol'].append((sig + ':drive-reads-wrong-surface', '%s: %r should read image %d surface %d but gave %s %r %r' % (
